@@ -157,6 +157,11 @@ class SSHKnownHosts:
             except KeyImportError:
                 try:
                     cert = import_certificate(data)
+
+                    if not cert.is_x509:
+                        # OpenSSH certificates aren't valid here, so
+                        # ignore them like other unparseable keys
+                        continue
                 except KeyImportError:
                     if not _x509_available: # pragma: no cover
                         continue
